@@ -409,7 +409,7 @@ pub open spec fn maps_prepared(o: &DataKeeper, a: &DataKeeper, scheme: Preparati
 }
 
 //@ lift crates/air-lib/trace-handler/src/merger/position_mapping.rs :: fn prepare_positions_mapping
-//@ props C01 C05 C09
+//@ props C01 C05 C08 C09
 //@ spec
     requires
         old(data_keeper).rlen() <= u32::MAX,
